@@ -46,35 +46,60 @@ def extract(repo):
     if len(ret) != 1 or not (isinstance(ret[0].value, ast.Call) and isinstance(ret[0].value.args[0], ast.Constant)):
         raise TranslateError("Gate.inverse: unexpected S/T return")
     t["inv_ST_name"] = ret[0].value.args[0].value
-    # Gate.__eq__: round(p % (2*pi), 7)
+    # Gate.__eq__:  period = <long> if ds["name"] in {...} else <short>;  round(p % period, 7) twice
     eq = find_def(g, "__eq__", cls="Gate")
-    mods = []
+    per = [n for n in ast.walk(eq) if isinstance(n, ast.Assign) and len(n.targets) == 1
+           and isinstance(n.targets[0], ast.Name) and n.targets[0].id == "period"]
+    if len(per) != 1 or not isinstance(per[0].value, ast.IfExp):
+        raise TranslateError("Gate.__eq__: expected `period = A if name in {...} else B`")
+    ife = per[0].value
+    tst = ife.test
+    if not (isinstance(tst, ast.Compare) and isinstance(tst.ops[0], ast.In)
+            and isinstance(tst.left, ast.Subscript) and isinstance(tst.left.value, ast.Name) and tst.left.value.id == "ds"
+            and isinstance(tst.left.slice, ast.Constant) and tst.left.slice.value == "name"):
+        raise TranslateError("Gate.__eq__: unexpected period test")
+    t["eq_long"] = sorted(str_collection(tst.comparators[0], "__eq__ long-period names"))
+    rl, hl = pi_multiple(ife.body)
+    rs_, hs = pi_multiple(ife.orelse)
+    if not (hl and hs):
+        raise TranslateError("Gate.__eq__: periods are not multiples of pi")
+    t["eq_modulus_long"], t["eq_modulus"] = rl, rs_
+    rounds = []
     for n in ast.walk(eq):
         if isinstance(n, ast.Call) and isinstance(n.func, ast.Name) and n.func.id == "round":
             if not (len(n.args) == 2 and isinstance(n.args[0], ast.BinOp) and isinstance(n.args[0].op, ast.Mod)
+                    and isinstance(n.args[0].right, ast.Name) and n.args[0].right.id == "period"
                     and isinstance(n.args[1], ast.Constant)):
                 raise TranslateError("Gate.__eq__: unexpected round(...) shape")
-            r, hp = pi_multiple(n.args[0].right)
-            if not hp:
-                raise TranslateError("Gate.__eq__: modulus is not a multiple of pi")
-            mods.append((r, n.args[1].value))
-    if len(mods) != 2 or mods[0] != mods[1]:
-        raise TranslateError("Gate.__eq__: expected two identical round(p %% m, d) calls, got %s" % mods)
-    t["eq_modulus"], t["eq_digits"] = mods[0]
-    # remove_small_rotations: abs(g.parameter) % (2*np.pi) < param_threshold
+            rounds.append(n.args[1].value)
+    if len(rounds) != 2 or rounds[0] != rounds[1]:
+        raise TranslateError("Gate.__eq__: expected two identical round(p %% period, d) calls, got %s" % rounds)
+    t["eq_digits"] = rounds[0]
+    # remove_small_rotations: abs(g.parameter) % ((L if g.name in ctrl_rot_gates else S)*np.pi) < param_threshold
     rs = find_def(c, "remove_small_rotations")
+    t["small_long"] = sorted(str_collection(local_assign(rs, "ctrl_rot_gates"), "remove_small_rotations.ctrl_rot_gates"))
     found = []
     for n in ast.walk(rs):
         if isinstance(n, ast.Compare) and isinstance(n.ops[0], ast.Lt) and isinstance(n.left, ast.BinOp) \
                 and isinstance(n.left.op, ast.Mod):
-            r, hp = pi_multiple(n.left.right)
             lhs = n.left.left
             if not (isinstance(lhs, ast.Call) and isinstance(lhs.func, ast.Name) and lhs.func.id == "abs"):
                 raise TranslateError("remove_small_rotations: expected abs(parameter) %% m < threshold")
-            found.append(r)
+            m = n.left.right
+            if not (isinstance(m, ast.BinOp) and isinstance(m.op, ast.Mult) and isinstance(m.left, ast.IfExp)):
+                raise TranslateError("remove_small_rotations: expected (L if name in ctrl_rot_gates else S)*pi")
+            tt = m.left.test
+            if not (isinstance(tt, ast.Compare) and isinstance(tt.ops[0], ast.In) and isinstance(tt.comparators[0], ast.Name)
+                    and tt.comparators[0].id == "ctrl_rot_gates" and isinstance(tt.left, ast.Attribute) and tt.left.attr == "name"):
+                raise TranslateError("remove_small_rotations: unexpected period test")
+            rl2, h1 = pi_multiple(ast.BinOp(left=m.left.body, op=ast.Mult(), right=m.right))
+            rs2, h2 = pi_multiple(ast.BinOp(left=m.left.orelse, op=ast.Mult(), right=m.right))
+            if not (h1 and h2):
+                raise TranslateError("remove_small_rotations: periods are not multiples of pi")
+            found.append((rl2, rs2))
     if len(found) != 1:
         raise TranslateError("remove_small_rotations: comparison not found exactly once")
-    t["small_modulus"] = found[0]
+    t["small_modulus_long"], t["small_modulus"] = found[0]
     return t
 
 
@@ -84,7 +109,8 @@ def emit(t):
          "From Tangelo Require Import Linq.GateModel.",
          "Import ListNotations.", "Open Scope string_scope.", "",
          "Definition gtables : tables := {|"]
-    fields = ["one_target", "two_target", "parameterized", "invertible", "clifford", "rot_small", "rot_merge"]
+    fields = ["one_target", "two_target", "parameterized", "invertible", "clifford", "rot_small", "rot_merge",
+              "eq_long", "small_long"]
     L.append(";\n".join("  %s := %s" % (f, coq_string_list(t[f])) for f in fields))
     L.append("|}.")
     L.append("(* angles in units of pi/8 *)")
@@ -92,6 +118,8 @@ def emit(t):
     L.append("Definition inv_T_units : Z := (%d)%%Z." % units_of_pi8(t["inv_T"], "inverse of T"))
     L.append('Definition inv_ST_name : string := "%s".' % t["inv_ST_name"])
     L.append("Definition eq_modulus_units : Z := (%d)%%Z." % units_of_pi8(t["eq_modulus"], "__eq__ modulus"))
+    L.append("Definition eq_modulus_long_units : Z := (%d)%%Z." % units_of_pi8(t["eq_modulus_long"], "__eq__ long modulus"))
     L.append("Definition eq_digits : Z := (%d)%%Z." % t["eq_digits"])
+    L.append("Definition small_modulus_long_units : Z := (%d)%%Z." % units_of_pi8(t["small_modulus_long"], "small-rotation long modulus"))
     L.append("Definition small_modulus_units : Z := (%d)%%Z." % units_of_pi8(t["small_modulus"], "small-rotation modulus"))
     return "\n".join(L) + "\n"
